@@ -447,6 +447,10 @@ Proof.
     (* a live dedicated client's wire was held by it before the acquire, so it is not the wire just acquired *)
     destruct (di_clients _ I c Hcin Hm) as [y [Fy Hy]]. unfold held in Hfree. rewrite <- Ew, Fy in Hfree. congruence.
   - (* SDo *) injection H as <-. eapply dinv_frame; [..|exact I]; reflexivity.
+  - (* DTry *)
+    destruct (find_dc d (d_clients s)) as [c|] eqn:F; [|discriminate].
+    destruct (dc_mark c) eqn:M; [discriminate|]. injection H as <-.
+    destruct (client_holds s d c I F M) as [Hh _]. apply user_cmd_inv; auto.
 Qed.
 
 Theorem dinv_reach : forall f v ls s, drun (dinit f v) ls = Some s -> dinv s.
@@ -505,7 +509,8 @@ Theorem recycled_rejects : forall s d, recycled s d ->
   (forall a, dstep s (DBlockFail d a) = Some (add_res s d RRecycled)) /\
   (forall a, dstep s (DTrackingOn d a) = Some (add_res s d RRecycled)) /\
   (forall z i, dstep s (DSetHooks d z i) = Some (add_res s d RRecycled)) /\
-  dstep s (DRelease d) = Some s /\ dstep s (DClose d) = Some s.
+  dstep s (DRelease d) = Some s /\ dstep s (DClose d) = Some s /\
+  (forall a, dstep s (DTry d a) = None).
 Proof.
   intros s d [c [F M]]. repeat split; intros; cbn [dstep]; unfold entry; rewrite F, M; reflexivity.
 Qed.
@@ -564,6 +569,8 @@ Proof.
     match type of H with context [find_wire w (d_wires ?t)] => destruct (find_wire w (d_wires t)) end; [|discriminate].
     injection H as <-. cbn [d_clients]. destruct fail; cbn [log_cmd d_clients]; rewrite Ec, F; eauto.
   - injection H as <-. cbn. eauto.
+  - destruct (find_dc d0 (d_clients s)) as [c0|]; [|discriminate].
+    destruct (dc_mark c0); [discriminate|]. injection H as <-. rewrite user_cmd_clients. eauto.
 Qed.
 
 (** ** the clean-up of release (mux.Store) *)
@@ -599,4 +606,124 @@ Proof.
   intros x h. unfold stored_wire, store_events. cbn.
   repeat split; intros; try rewrite H; try rewrite H0; try rewrite H1; cbn; try reflexivity;
     destruct (w_bg x), (w_inval x), (w_blocked x); cbn; try reflexivity; try discriminate.
+Qed.
+
+(** ** nothing of a recycled client reaches the server any more: whatever step is taken from a state in which client
+    [d] is marked, the events it adds to the log belong to other holders.  In particular the retry loop of Do / DoMulti
+    — which re-checks the mark before every attempt — cannot send again once the client was released or closed during
+    its back-off. *)
+Definition ev_holder (e : ev) : holder := match e with EvAcq _ h | EvCmd _ h _ | EvRel _ h _ => h end.
+Definition all_by (h : holder) (evs : list ev) : Prop := forall e, In e evs -> ev_holder e = h.
+
+Lemma all_by_app : forall h a b, all_by h a -> all_by h b -> all_by h (a ++ b).
+Proof. intros h a b A B e Hin. apply in_app_or in Hin. destruct Hin; auto. Qed.
+
+Lemma all_by_one : forall h e, ev_holder e = h -> all_by h [e].
+Proof. intros h e E x [<-|[]]. exact E. Qed.
+
+Lemma all_by_nil : forall h, all_by h [].
+Proof. intros h e []. Qed.
+
+Lemma store_events_by : forall x h, all_by h (store_events x h).
+Proof.
+  intros x h. unfold store_events. repeat apply all_by_app.
+  - destruct (w_dead x); [apply all_by_nil|]. destruct (w_blocked x); [apply all_by_one; reflexivity|].
+    destruct (w_bg x); [apply all_by_one; reflexivity|apply all_by_nil].
+  - destruct (w_inval x && negb (w_dead x || w_blocked x)); [apply all_by_one; reflexivity|apply all_by_nil].
+  - apply all_by_one. reflexivity.
+Qed.
+
+Lemma mux_store_log : forall s w h, exists evs, d_log (mux_store s w h) = d_log s ++ evs /\ all_by h evs.
+Proof.
+  intros. unfold mux_store. destruct (find_wire w (d_wires s)) as [x|].
+  - exists (store_events x h). split; [reflexivity|apply store_events_by].
+  - exists []. split; [symmetry; apply app_nil_r|apply all_by_nil].
+Qed.
+
+Lemma user_cmd_log : forall s w h a f, exists evs, d_log (user_cmd s w h a f) = d_log s ++ evs /\ all_by h evs.
+Proof.
+  intros. unfold user_cmd. destruct (wire_dead s w).
+  - exists []. split; [symmetry; apply app_nil_r|apply all_by_nil].
+  - exists [EvCmd w h (WUser a)]. split; [reflexivity|apply all_by_one; reflexivity].
+Qed.
+
+Theorem no_send_after_release : forall s l s' d, recycled s d -> dstep s l = Some s' ->
+  exists evs, d_log s' = d_log s ++ evs /\ forall e, In e evs -> ev_holder e <> HDed d.
+Proof.
+  intros s l s' d [c [F M]] H.
+  assert (Hnil : forall t, d_log t = d_log s ->
+            exists evs, d_log t = d_log s ++ evs /\ forall e, In e evs -> ev_holder e <> HDed d).
+  { intros t E. exists []. rewrite app_nil_r. split; [exact E|intros e []]. }
+  assert (Hby : forall t h evs, h <> HDed d -> d_log t = d_log s ++ evs -> all_by h evs ->
+            exists evs, d_log t = d_log s ++ evs /\ forall e, In e evs -> ev_holder e <> HDed d).
+  { intros t h evs Hne E B. exists evs. split; [exact E|]. intros e Hin. rewrite (B e Hin). exact Hne. }
+  assert (Hne : forall d0 c0, find_dc d0 (d_clients s) = Some c0 -> dc_mark c0 = false -> HDed d0 <> HDed d).
+  { intros d0 c0 F0 M0 E. injection E as ->. rewrite F in F0. injection F0 as <-. congruence. }
+  assert (Hentry : forall d0 k, (forall c0, exists evs, d_log (k c0) = d_log s ++ evs /\ all_by (HDed d0) evs) ->
+            entry s d0 k = Some s' ->
+            exists evs, d_log s' = d_log s ++ evs /\ forall e, In e evs -> ev_holder e <> HDed d).
+  { intros d0 k Hk He. unfold entry in He. destruct (find_dc d0 (d_clients s)) as [c0|] eqn:F0; [|discriminate].
+    destruct (dc_mark c0) eqn:M0; injection He as <-; cbn [add_res d_log]; [apply Hnil; reflexivity|].
+    destruct (Hk c0) as [evs [E B]]. apply (Hby _ (HDed d0) evs); eauto. }
+  destruct l; cbn [dstep] in H.
+  - (* DAcquire *)
+    destruct (find_dc d0 (d_clients s)) eqn:F0; [discriminate|].
+    destruct (pool_acquire s (HDed d0)) as [s1 w] eqn:A. injection H as <-.
+    destruct (acquire_log _ _ _ _ A) as [El _]. cbn [set_clients d_log].
+    apply (Hby _ (HDed d0) [EvAcq w (HDed d0)]); [|exact El|apply all_by_one; reflexivity].
+    intros E. injection E as ->. congruence.
+  - (* DDo *) refine (Hentry d0 _ _ H). intros c0. apply user_cmd_log.
+  - (* DSubscribe *) refine (Hentry d0 _ _ H). intros c0. apply user_cmd_log.
+  - (* DBlockFail *)
+    refine (Hentry d0 _ _ H). intros c0. cbv zeta.
+    destruct (user_cmd_log s (dc_wire c0) (HDed d0) a (fun x => x)) as [evs [E B]].
+    destruct (wire_dead s (dc_wire c0)); [eauto|].
+    match goal with |- context [match find_wire ?w ?l with _ => _ end] => destruct (find_wire w l) as [x|] end; [|eauto].
+    destruct (w_bg x); cbn [d_log log_cmd]; [eauto|].
+    exists (evs ++ [EvCmd (dc_wire c0) (HDed d0) WCloseConn]). rewrite E, app_assoc. split; [reflexivity|].
+    apply all_by_app; [exact B|apply all_by_one; reflexivity].
+  - (* DTrackingOn *) refine (Hentry d0 _ _ H). intros c0. apply user_cmd_log.
+  - (* DSetHooks *)
+    refine (Hentry d0 _ _ H). intros c0. exists []. cbn [d_log]. split; [symmetry; apply app_nil_r|apply all_by_nil].
+  - (* DRelease *)
+    destruct (find_dc d0 (d_clients s)) as [c0|] eqn:F0; [|discriminate].
+    destruct (dc_mark c0) eqn:M0; injection H as <-; [apply Hnil; reflexivity|].
+    match goal with |- context [mux_store ?t ?w ?h] => destruct (mux_store_log t w h) as [evs [E B]] end.
+    apply (Hby _ (HDed d0) evs); eauto.
+  - (* DClose *)
+    destruct (find_dc d0 (d_clients s)) as [c0|] eqn:F0; [|discriminate].
+    destruct (dc_mark c0) eqn:M0; injection H as <-; [apply Hnil; reflexivity|].
+    match goal with |- context [mux_store ?t ?w ?h] => destruct (mux_store_log t w h) as [evs [E B]] end.
+    match type of E with context [if ?b then _ else _] => destruct b end; cbn [log_cmd set_clients d_log] in E.
+    + apply (Hby _ (HDed d0) evs); eauto.
+    + rewrite <- app_assoc in E. apply (Hby _ (HDed d0) _ (Hne _ _ F0 M0) E).
+      apply all_by_app; [apply all_by_one; reflexivity|exact B].
+  - (* BDo *)
+    destruct (pool_acquire s (HBlock b)) as [s1 w] eqn:A. cbv beta iota zeta in H.
+    destruct (acquire_log _ _ _ _ A) as [El _].
+    match type of H with context [find_wire w (d_wires ?t)] => destruct (find_wire w (d_wires t)) end; [|discriminate].
+    injection H as <-. cbn [d_log].
+    assert (Hb : HBlock b <> HDed d) by discriminate.
+    destruct fail; cbn [log_cmd d_log]; rewrite El; rewrite <- !app_assoc;
+      (eexists; split; [reflexivity|]); intros e Hin; cbn in Hin;
+      repeat (destruct Hin as [<-|Hin]; [cbn; discriminate|]); destruct Hin.
+  - (* SDo *) injection H as <-. apply Hnil. reflexivity.
+  - (* DTry *)
+    destruct (find_dc d0 (d_clients s)) as [c0|] eqn:F0; [|discriminate].
+    destruct (dc_mark c0) eqn:M0; [discriminate|]. injection H as <-.
+    destruct (user_cmd_log s (dc_wire c0) (HDed d0) a (fun x => x)) as [evs [E B]].
+    apply (Hby _ (HDed d0) evs); eauto.
+Qed.
+
+(** … over any continuation of the program *)
+Theorem no_send_after_release_run : forall ls s s' d, recycled s d -> drun s ls = Some s' ->
+  exists evs, d_log s' = d_log s ++ evs /\ forall e, In e evs -> ev_holder e <> HDed d.
+Proof.
+  induction ls as [|l ls IH]; intros s s' d R H; cbn in H.
+  - injection H as <-. exists []. rewrite app_nil_r. split; [reflexivity|intros e []].
+  - destruct (dstep s l) as [s1|] eqn:S; [|discriminate].
+    destruct (no_send_after_release s l s1 d R S) as [e1 [E1 B1]].
+    destruct (IH s1 s' d (recycled_sticky s l s1 d R S) H) as [e2 [E2 B2]].
+    exists (e1 ++ e2). rewrite E2, E1, app_assoc. split; [reflexivity|].
+    intros e Hin. apply in_app_or in Hin. destruct Hin; auto.
 Qed.
